@@ -100,6 +100,8 @@ def main() -> int:
             continue
         if sig in reported:
             continue
+        if len(reported) >= 6:  # enough distinct replays; the rest is counted in the evidence only
+            continue
         reported.add(sig)
         small = common.shrink_case(suite, v["case"], prop, "oracle", sig)
         vv, dd, im, mo = common.recheck(suite, small, prop)
